@@ -6,7 +6,7 @@ import sys
 
 ROOT = os.path.dirname(os.path.dirname(os.path.abspath(__file__)))
 
-HOOK_COMMITS = ["b1474d3", "17f8504", "209f7d4", "d1c653d", "95035df", "920cc08", "6e834a5", "da9a5fd"]
+HOOK_COMMITS = ["b1474d3", "17f8504", "209f7d4", "d1c653d", "95035df", "920cc08", "6e834a5", "da9a5fd", "b20d73f"]
 
 CHECKS = {
     "C07": {
@@ -174,7 +174,7 @@ CHECKS["C10"] = {
             "running node, which must stay up, keep admitting honest peers and drain its pools; single-field extremes of the std conversions and genesis; validly signed consensus "
             "messages with maximal views / empty / oversized collections; garbage ciphertext. Sampled only: decoder totality over byte strings (seeded mutations, "
             "truncations, random strings).",
-    "note": "Not covered: RPC request bodies of the crate-private request types, arbitrary byte strings exhaustively (a fuzzing question). Four defects found by this check were repaired (known_findings.txt).",
+    "note": "Not covered: arbitrary byte strings exhaustively (a fuzzing question); RPC bodies are malformed by class (garbage, oversize, truncated, empty, wrong message), not field by field. Four defects found by this check were repaired (known_findings.txt).",
     "design_ref": "§7 C10, §9",
 }
 
